@@ -29,13 +29,16 @@ pub struct Cfg { pub kind: Kind, pub n: usize, pub m: usize, pub streams: usize,
     /// streams created first (they get the lowest ids) and dropped -- neither cancelled nor ended -- before the run starts
     pub predropped: usize,
     /// a targeted stream's thread creates a replacement stream (recycled id) right after dropping the ended one
-    pub replace: bool }
+    pub replace: bool,
+    /// (request = end_all only) `cancel_all_streams()` is issued right before `gracefully_end_all_streams()`: cancelled streams still drain what is buffered, the
+    /// graceful end must still wait for everything accepted before
+    pub cancel_first: bool }
 impl Cfg {
     pub fn targeted(&self, i: usize) -> bool { match &self.req { Req::CancelAll | Req::EndAll => true, Req::End(v) => v.contains(&i) } }
     pub fn json(&self) -> J {
         J::obj().with("kind", J::s(self.kind.name())).with("N", J::i(self.n as i64)).with("M", J::i(self.m as i64)).with("streams", J::i(self.streams as i64))
             .with("request", J::s(format!("{:?}", self.req))).with("producers", J::Arr(self.entries.iter().map(|e| J::s(e.name())).collect()))
-            .with("events_per_producer", J::i(self.per_prod as i64)).with("prefill", J::i(self.prefill as i64)).with("requester_delay_steps", J::i(self.delay as i64)).with("fresh_wakers", J::Bool(self.fresh_wakers)).with("streams_created_first_and_dropped_uncancelled_before_the_run", J::i(self.predropped as i64)).with("ended_streams_replaced_at_once_by_new_ones", J::Bool(self.replace))
+            .with("events_per_producer", J::i(self.per_prod as i64)).with("prefill", J::i(self.prefill as i64)).with("requester_delay_steps", J::i(self.delay as i64)).with("fresh_wakers", J::Bool(self.fresh_wakers)).with("cancel_all_streams_right_before_the_request", J::Bool(self.cancel_first)).with("streams_created_first_and_dropped_uncancelled_before_the_run", J::i(self.predropped as i64)).with("ended_streams_replaced_at_once_by_new_ones", J::Bool(self.replace))
     }
 }
 
@@ -61,7 +64,7 @@ pub fn draw_cfg(rng: &mut Rng, only: Option<&str>, end_all: bool) -> Cfg {
     let entries: Vec<Entry> = (0..nprod).map(|_| *rng.pick(&es)).collect();
     let predropped = if kind != Kind::MultiMmap && streams < m && rng.chance(1, 3) { 1 + rng.below((m - streams) as u64) as usize } else { 0 };
     let replace = matches!(req, Req::End(_)) && streams == m && rng.chance(1, 2);
-    Cfg { kind, n, m, streams, req, entries, per_prod, prefill, delay: rng.below(40) as u32, fresh_wakers: rng.chance(1, 3), predropped, replace }
+    Cfg { kind, n, m, streams, req, entries, per_prod, prefill, delay: rng.below(40) as u32, fresh_wakers: rng.chance(1, 3), predropped, replace, cancel_first: end_all && rng.chance(1, 3) }
 }
 
 pub fn block_on_paused<F: std::future::Future>(f: F) -> F::Output {
@@ -93,16 +96,22 @@ pub fn one_run(cfg: &Cfg, rc: &RunCfg, acc: &mut Acc) -> (Option<J>, u64, bool) 
     // per targeted stream: the log of its replacement and (creation returned, dropped) stamps
     let rlogs: Vec<Arc<ConsLog>> = (0..cfg.streams).map(|_| Arc::new(ConsLog::default())).collect();
     let rborn: Vec<Arc<AtomicU64>> = (0..cfg.streams).map(|_| Arc::new(AtomicU64::new(0))).collect();
+    // (call, return) of the creation of each replacement: like a drop, a creation rewrites the live-listener list in place
+    let rcreate: Vec<Arc<std::sync::Mutex<Option<(u64, u64)>>>> = (0..cfg.streams).map(|_| Arc::new(std::sync::Mutex::new(None))).collect();
     if cfg.replace { acc.count("runs_in_which_ended_streams_are_replaced_at_once(recycled_id)", 1) }
+    if cfg.cancel_first { acc.count("runs_with_cancel_all_streams_right_before_gracefully_end_all_streams", 1) }
     for (i, (s, l)) in strms.into_iter().zip(clogs.iter()).enumerate() {
         if cfg.targeted(i) && cfg.replace {
             let inner = driven_consumer_body(s, cfg.fresh_wakers, Hold::Release, l.clone());
-            let (ch2, rl, rb, pd, l2) = (ch.clone(), rlogs[i].clone(), rborn[i].clone(), prod_done.clone(), l.clone());
+            let (ch2, rl, rb, pd, l2, rcr) = (ch.clone(), rlogs[i].clone(), rborn[i].clone(), prod_done.clone(), l.clone(), rcreate[i].clone());
             bodies.push(Box::new(move || {
                 inner();
                 if !l2.ended.load(SeqCst) { return }          // (it gave up at quiescence: reported below)
+                let t0 = stamp();
                 let s = ch2.create_stream();
-                rb.store(stamp(), SeqCst);
+                let t1 = stamp();
+                *rcr.lock().unwrap() = Some((t0, t1));
+                rb.store(t1, SeqCst);
                 sched::op_done();
                 // polls until the producers are done and it found nothing twice (it does not wait for the requester, which may be waiting for this very id)
                 polling_consumer_body(s, Hold::Release, rl, Arc::new(move || pd.load(SeqCst) == nprod))();
@@ -118,14 +127,17 @@ pub fn one_run(cfg: &Cfg, rc: &RunCfg, acc: &mut Acc) -> (Option<J>, u64, bool) 
         bodies.push(Box::new(move || { let _g = OnExit(Some(move || { d.fetch_add(1, SeqCst); pd.fetch_add(1, SeqCst); })); inner() }));
     }
     {
-        let (ch, d, rr, rcall, cfg2, ids, ea, snap) = (ch.clone(), done.clone(), req_returned.clone(), req_called.clone(), cfg.clone(), stream_ids.clone(), end_answers.clone(), end_all_snapshot.clone());
+        let (ch, d, rr, rcall, cfg2, ids, ea, snap, pd) = (ch.clone(), done.clone(), req_returned.clone(), req_called.clone(), cfg.clone(), stream_ids.clone(), end_answers.clone(), end_all_snapshot.clone(), prod_done.clone());
         bodies.push(Box::new(move || {
             let _g = OnExit(Some(move || { d.fetch_add(1, SeqCst); }));
             for _ in 0..cfg2.delay { sched::point() }
+            // (cancel first: an event accepted after the streams have ended can never be delivered and an unbounded graceful end would wait for it forever -- no
+            //  verdict possible; so the sends are over before the cancellation is issued, and what races is the consumers against send + cancel)
+            if cfg2.cancel_first { while pd.load(SeqCst) < nprod { sched::spin() } }
             rcall.store(stamp(), SeqCst);
             match &cfg2.req {
                 Req::CancelAll => ch.cancel_all(),
-                Req::EndAll => { let left = block_on_paused(ch.end_all(Duration::ZERO)); ea.lock().unwrap().push((usize::MAX, left == 0)); sched::op_done() }
+                Req::EndAll => { if cfg2.cancel_first { ch.cancel_all() } let left = block_on_paused(ch.end_all(Duration::ZERO)); ea.lock().unwrap().push((usize::MAX, left == 0)); sched::op_done() }
                 Req::End(v) => for i in v { let ok = block_on_paused(ch.end_stream(ids[*i], Duration::ZERO)); ea.lock().unwrap().push((*i, ok)); sched::op_done() },
             }
             rr.store(stamp(), SeqCst);
@@ -137,19 +149,26 @@ pub fn one_run(cfg: &Cfg, rc: &RunCfg, acc: &mut Acc) -> (Option<J>, u64, bool) 
     if rc.trace { sched::dump_trace(&rep) }
     if rep.inconclusive() { if acc.notes.len() < 10 { acc.notes.push(format!("inconclusive {:?}: {} {}", rep.outcome, cfg.json().to_string(), rc.strategy.describe())) } std::mem::forget(ch); return (None, rep.sched_hash, true) }
     let mut probs: Vec<(String, String)> = Vec::new();
+    // every operation of the run that rewrote the live-listener list in place: the drops of the original streams and of their replacements, the creations of the replacements
+    let rewrites: Vec<(u64, u64)> = clogs.iter().chain(rlogs.iter()).filter_map(|l| *l.drop_span.lock().unwrap()).chain(rcreate.iter().filter_map(|c| *c.lock().unwrap())).collect();
+    let overlaps_rewrite = |a: u64, b: u64| rewrites.iter().any(|d| a < d.1 && d.0 < b);
     for (t, p) in &rep.panics {
-        // causal attribution of one specific panic: a sender that found a listener's queue full although the workload never sends more than N events --
-        // when that listener was handed some event TWICE and the duplicated event's send overlapped a listener drop (the unsynchronised rewrite of the
-        // live-listener list, C07-D8 / C17-D8), the overflow is that finding's consequence; any other panic stays a plain "panic"
+        // causal attribution of one specific panic: a sender that found a listener's queue full although the workload never sends more than N events, so
+        // the queue can only be full of duplicates / leftovers. That is the consequence of C07-D8 / C17-D8 (senders walk the live-listener list without
+        // synchronisation while a create / drop rewrites it in place) when (a) the panicking send itself overlapped such a rewrite (its own fan-out walked a
+        // half-rewritten list), or (b) the named listener was handed some event TWICE and that event's send overlapped a rewrite; any other panic stays a plain "panic"
         let mut anomaly = "panic";
         if cfg.kind.is_multi() && p.contains("is full of elements") {
-            let drops: Vec<(u64, u64)> = clogs.iter().filter_map(|l| *l.drop_span.lock().unwrap()).collect();
             let named: Option<u32> = p.split("(#").nth(1).and_then(|r| r.split(')').next()).and_then(|d| d.parse().ok());
-            for l in clogs.iter() {
+            if let Some(pl) = plogs.iter().find(|pl| pl.tid.load(SeqCst) as usize == *t) {
+                let (a, b) = (pl.open_call.load(SeqCst), pl.panicked_at.load(SeqCst));
+                if a > 0 && overlaps_rewrite(a, if b > 0 { b } else { u64::MAX }) { anomaly = "sender_panicked_on_a_listener_queue_filled_by_a_duplicate_delivered_during_a_listener_drop" }
+            }
+            for l in clogs.iter().chain(rlogs.iter()) {
                 if named.map(|n| n != l.stream_id.load(SeqCst)).unwrap_or(false) { continue }
                 let ids = l.ids();
                 let dup: Vec<u64> = ids.iter().copied().filter(|i| ids.iter().filter(|j| *j == i).count() > 1).collect();
-                if !dup.is_empty() && dup.iter().all(|id| plogs.iter().any(|pl| pl.calls.lock().unwrap().iter().any(|c| c.0 == *id && c.3 && drops.iter().any(|d| c.1 < d.1 && d.0 < c.2)))) {
+                if !dup.is_empty() && dup.iter().all(|id| plogs.iter().any(|pl| pl.calls.lock().unwrap().iter().any(|c| c.0 == *id && c.3 && overlaps_rewrite(c.1, c.2)))) {
                     anomaly = "sender_panicked_on_a_listener_queue_filled_by_a_duplicate_delivered_during_a_listener_drop";
                 }
             }
@@ -202,9 +221,8 @@ pub fn one_run(cfg: &Cfg, rc: &RunCfg, acc: &mut Acc) -> (Option<J>, u64, bool) 
             else if cfg.kind.is_multi() && rep.outcome == Outcome::Done {
                 // everything whose send started after the replacement's creation had returned was sent during its lifetime
                 let got: HashSet<u64> = l.ids().into_iter().collect();
-                let drops: Vec<(u64, u64)> = clogs.iter().chain(rlogs.iter()).filter_map(|l| *l.drop_span.lock().unwrap()).collect();
                 for pl in &plogs { for c in pl.calls.lock().unwrap().iter() { if c.3 && c.1 > born && !got.contains(&c.0) {
-                    let overlap = drops.iter().any(|d| c.1 < d.1 && d.0 < c.2);
+                    let overlap = overlaps_rewrite(c.1, c.2);
                     probs.push((if overlap { "untargeted_missed_event_sent_during_a_listener_drop" } else { "untargeted_missed" }.into(), format!("the replacement of stream {i} never yielded event {}, whose send started after the replacement's creation had returned", c.0)));
                 } } }
             }
@@ -220,8 +238,7 @@ pub fn one_run(cfg: &Cfg, rc: &RunCfg, acc: &mut Acc) -> (Option<J>, u64, bool) 
                     let miss: Vec<u64> = accepted.iter().copied().filter(|a| !got.contains(a)).collect();
                     if !miss.is_empty() {
                         // causal analysis: was every missed event sent while a (targeted) listener was being dropped, i.e. while the live-listener list was rewritten?
-                        let drops: Vec<(u64, u64)> = clogs.iter().filter_map(|l| *l.drop_span.lock().unwrap()).collect();
-                        let all_overlap = miss.iter().all(|id| plogs.iter().any(|l| l.calls.lock().unwrap().iter().any(|c| c.0 == *id && c.3 && drops.iter().any(|d| c.1 < d.1 && d.0 < c.2))));
+                        let all_overlap = miss.iter().all(|id| plogs.iter().any(|l| l.calls.lock().unwrap().iter().any(|c| c.0 == *id && c.3 && overlaps_rewrite(c.1, c.2))));
                         probs.push((if all_overlap { "untargeted_missed_event_sent_during_a_listener_drop" } else { "untargeted_missed" }.into(), format!("listener {i}, which was not told to end, never yielded {:?}", miss)));
                     }
                 }
@@ -238,6 +255,13 @@ pub fn one_run(cfg: &Cfg, rc: &RunCfg, acc: &mut Acc) -> (Option<J>, u64, bool) 
             match r { Ok(n) => { if n as usize != cfg.m { probs.push(("running_count".into(), format!("with MAX_STREAMS = {} fresh streams alive running_streams_count() is {n}", cfg.m))) } acc.count("stream_id_reuse_probes", 1) }
                       Err(_) => probs.push(("ids_not_reusable".into(), format!("creating MAX_STREAMS = {} streams after every earlier stream was dropped panicked (ids exhausted)", cfg.m))) }
         }
+    }
+    // C06 lane (request = end_all): a sender that panics on a queue filled through C07-D8 / C17-D8 is that finding's consequence for a send issued while the
+    // streams were ending -- C06 says nothing about such sends (the send never reported success); it is counted, and left to C07 / C17
+    if cfg.req == Req::EndAll {
+        let before = probs.len();
+        probs.retain(|p| p.0 != "sender_panicked_on_a_listener_queue_filled_by_a_duplicate_delivered_during_a_listener_drop");
+        if probs.len() != before { acc.count("sender_panics_caused_by_the_unsynchronised_listener_list(C07-D8/C17-D8)_in_sends_issued_while_streams_were_ending(not_a_C06_matter)", (before - probs.len()) as u64) }
     }
     let v = if probs.is_empty() { None } else {
         let mut sigs: Vec<J> = Vec::new();
